@@ -89,6 +89,7 @@ type pathState struct {
 	lastSite string
 	maxLoop  int64
 	nondetMap bool
+	nondetMapAll bool // every permutation instead of rotations + reverse
 	floatMode int // int->float conversions: 0 = real encoding, 1 = FP
 	memo     map[string]value
 	curPos   token.Pos
@@ -98,6 +99,9 @@ type pathState struct {
 	randRanges []value
 	randVars   []*Term
 	probMode   bool
+	lastSeed    value
+	lastSeedSym bool
+	seeded      bool
 	out        []value // text written to the in-memory output sink
 	numCPUSym bool
 	numericNamesExcluded bool
